@@ -11,7 +11,7 @@ from . import common as C
 from .c05 import PAIRS as IN_PAIRS
 
 ID = "C12"
-BUDGET = {"quick": 14000, "thorough": 240000}
+BUDGET = {"quick": 20000, "thorough": 240000}
 SOFT = {"quick": 85, "thorough": 570}
 RULE = ("all 343 ordered kind triples cycled; b is built through feature points of a and c through feature points of the exact "
         "a∩b (or of a / b), so that non-empty triple intersections are frequent, plus random operands; judged: "
@@ -58,7 +58,7 @@ def cases(rng, budget, widx, nworkers, tier):
                 b2 = gen._scale_about(a, rng.choice(inner), rng.choice((F(1, 4), F(1, 2), F(1, 8))))
                 if gen.ok_coords(b2, 64):
                     a, b = (a, b2) if rng.random() < 0.7 else (b2, a)      # strictly nested, off-centre, no surface contact
-        elif ka in ("PG", "PH") and kb in ("PG", "PH") and rng.random() < 0.25:
+        elif ka in ("PG", "PH") and kb in ("PG", "PH") and rng.random() < (0.5 if ka == kb == "PH" else 0.25):
             (a, b), _lab = gen.body_pair(rng, ka, kb, small=True)      # labelled relative positions incl. strictly nested / small integer boxes
         if ka == "PL" and kb == "PL" and rng.random() < 0.15:
             pp = gen.slab_plane_pair(rng)          # parallel planes at Hesse offsets -1 and -2 (hash-alike)
